@@ -548,5 +548,5 @@ func (R *Repository) closeRepositoryEntry(entry *Entry, id string) {
 	entry.entryLock.Lock()
 	defer entry.entryLock.Unlock()
 	entry.CRLStore.Close()
-	R.crlRepository[id] = nil
+	delete(R.crlRepository, id)
 }
